@@ -267,6 +267,11 @@ pub fn run(o: &Opts, rec: &mut Recorder) {
     for l in built_in_messages() {
         exec(&l, rec);
     }
+    // a directed family over the whole parameter range of the EDNS options (every tier)
+    for l in directed_edns_options(o.seed) {
+        rec.stat("line.rt.directed-edns");
+        exec(&l, rec);
+    }
     use crate::props::c01;
     use crate::props::msgemit::{fnv1a, gen_message_tier};
     let mut r = Rng::new(o.seed ^ 0x00C0_2B00);
@@ -305,6 +310,135 @@ pub fn run(o: &Opts, rec: &mut Recorder) {
             }
         }
     }
+}
+
+/// A query whose only record is an OPT record with the given option octets (RDATA), as wire bytes.
+fn opt_message(id: u16, rdata: &[u8]) -> Vec<u8> {
+    let mut b = vec![];
+    b.extend(id.to_be_bytes());
+    b.extend([0x01, 0x00]); // RD
+    b.extend([0, 1, 0, 0, 0, 0, 0, 1]); // QD 1, AR 1
+    b.extend([7]);
+    b.extend(b"example");
+    b.extend([0, 0, 1, 0, 1]); // example. A IN
+    b.extend([0]); // root
+    b.extend(41u16.to_be_bytes());
+    b.extend(1232u16.to_be_bytes());
+    b.extend([0, 0, 0x80, 0]); // DO
+    b.extend((rdata.len() as u16).to_be_bytes());
+    b.extend(rdata);
+    b
+}
+
+fn opt_option(code: u16, data: &[u8]) -> Vec<u8> {
+    let mut v = vec![];
+    v.extend(code.to_be_bytes());
+    v.extend((data.len() as u16).to_be_bytes());
+    v.extend(data);
+    v
+}
+
+/// Directed family (stage 3): decode → encode → decode over the WHOLE parameter range of the EDNS
+/// options — Client Subnet with family 1 / 2, EVERY source prefix 0..=32 / 0..=128 (not only the
+/// octet-aligned ones), scope prefixes likewise, addresses with random bits including non-zero bits
+/// beyond the prefix in the last transmitted octet (which the decoder accepts and keeps) — plus the
+/// length boundaries of the other options (NSID, DAU, unknown codes) and several options in one OPT.
+fn directed_edns_options(seed: u64) -> Vec<String> {
+    let mut r = Rng::new(seed ^ 0xED05_0B75);
+    let mut v = vec![];
+    let mut id = 0x4000u16;
+    let mut push = |v: &mut Vec<String>, rdata: &[u8]| {
+        id = id.wrapping_add(1);
+        v.push(format!("rt {}", hex(&opt_message(id, rdata))));
+    };
+    for (family, max) in [(1u16, 32u16), (2, 128)] {
+        for sp in 0..=max {
+            let alen = ((sp + 7) / 8) as usize;
+            for k in 0..2 {
+                let scope = match k {
+                    0 => (sp * 7 + 3) % (max + 1),
+                    _ => *r.pick(&[0u16, sp, max]),
+                };
+                let mut d = vec![];
+                d.extend(family.to_be_bytes());
+                d.push(sp as u8);
+                d.push(scope as u8);
+                let mut addr = r.bytes(alen);
+                if k == 1 && alen > 0 {
+                    // all bits of the last octet set: non-zero both inside and beyond the prefix
+                    addr[alen - 1] = 0xFF;
+                }
+                d.extend(addr);
+                push(&mut v, &opt_option(8, &d));
+            }
+        }
+        // every scope prefix for two fixed source prefixes
+        for scope in 0..=max {
+            let sp = if family == 1 { 22u16 } else { 53 };
+            let alen = ((sp + 7) / 8) as usize;
+            let mut d = vec![];
+            d.extend(family.to_be_bytes());
+            d.push(sp as u8);
+            d.push(scope as u8);
+            d.extend(r.bytes(alen));
+            push(&mut v, &opt_option(8, &d));
+        }
+    }
+    // Client Subnet: wrong lengths / families (refused, or trailing octets ignored)
+    for d in [
+        vec![0u8, 1, 24, 0, 10, 1, 2, 3],          // one octet more than the prefix needs
+        vec![0, 1, 24, 0, 10, 1],                  // one octet less
+        vec![0, 1, 33, 0, 10, 1, 2, 3, 4],         // prefix past the family width
+        vec![0, 2, 129, 0],                        // likewise, IPv6
+        vec![0, 3, 8, 0, 1],                       // unknown family
+        vec![0, 1, 0, 0],                          // /0
+        vec![0, 1],                                // truncated
+    ] {
+        push(&mut v, &opt_option(8, &d));
+    }
+    // NSID / unknown codes / DAU: length boundaries
+    for n in [0usize, 1, 2, 15, 255, 256, 257, 1000, 4000] {
+        let d = r.bytes(n);
+        push(&mut v, &opt_option(3, &d));
+        push(&mut v, &opt_option(10, &d));
+        push(&mut v, &opt_option(65001, &d));
+    }
+    for algs in [
+        vec![],
+        vec![8u8],
+        vec![15, 14, 13, 10, 8, 7, 5],
+        vec![5, 5, 8, 8],
+        vec![0, 1, 2, 3, 200, 255],
+        vec![13, 99, 8],
+    ] {
+        push(&mut v, &opt_option(5, &algs));
+        push(&mut v, &opt_option(6, &algs)); // DHU / N3U: unknown codes in this hickory
+        push(&mut v, &opt_option(7, &algs));
+    }
+    // several options in one OPT (order kept), and the leniencies at the end of the option list
+    let ecs = opt_option(8, &[0, 1, 21, 0, 10, 1, 0xFC]);
+    let nsid = opt_option(3, b"ns1");
+    let dau = opt_option(5, &[8, 13]);
+    let unk = opt_option(4242, &[1, 2, 3]);
+    for combo in [
+        vec![&ecs, &nsid],
+        vec![&nsid, &ecs, &dau],
+        vec![&unk, &unk, &ecs],
+        vec![&dau, &unk, &nsid, &ecs],
+    ] {
+        let mut d = vec![];
+        for o in combo {
+            d.extend(o.iter());
+        }
+        push(&mut v, &d);
+        let mut t = d.clone();
+        t.extend([0, 3]); // a last option cut after its code
+        push(&mut v, &t);
+        let mut t = d.clone();
+        t.extend([0, 3, 0, 9, 1, 2]); // a last option shorter than declared
+        push(&mut v, &t);
+    }
+    v
 }
 
 /// deterministic message-level cases
